@@ -19,13 +19,16 @@ variable {σ P : Type}
 def InnerGuards (view : P → View) (inner : Inner σ P) : Prop :=
   ∀ st pkt a, (inner.ack st pkt).success = true → (view pkt).amount = some a → 0 ≤ a
 
-/-- The pair's contract answers `balanceOf` whenever its `mint` / `transfer` succeeds (otherwise Go's big.Int
-    arithmetic on a nil balance panics inside `convertCoinNative*`). -/
+/-- The pair's contract answers `balanceOf` (for the receiver `a`; in the `transfer` flow also for the module account
+    `m`, read right after the receiver's, before and after the call) whenever its `mint` / `transfer` succeeds
+    (otherwise Go's big.Int arithmetic on a nil balance panics inside `convertCoinNative*`). -/
 def EvmSane (E : Evm σ) : Prop :=
   (∀ s c a amt s2, E.mint (E.balanceOf s c a).1 c a amt = some s2 →
       (E.balanceOf s c a).2 ≠ none ∧ (E.balanceOf s2 c a).2 ≠ none) ∧
-  (∀ s c a amt s2 ap, E.transfer (E.balanceOf s c a).1 c a amt = some (s2, some true, ap) →
-      (E.balanceOf s c a).2 ≠ none ∧ (E.balanceOf s2 c a).2 ≠ none)
+  (∀ s c a m amt s2 ap,
+      E.transfer (E.balanceOf (E.balanceOf s c a).1 c m).1 c a amt = some (s2, some true, ap) →
+      (E.balanceOf s c a).2 ≠ none ∧ (E.balanceOf (E.balanceOf s c a).1 c m).2 ≠ none ∧
+      (E.balanceOf s2 c a).2 ≠ none ∧ (E.balanceOf (E.balanceOf s2 c a).1 c m).2 ≠ none)
 
 /-! ### the hook returns what it was given -/
 
@@ -108,6 +111,15 @@ theorem convertNativeCoin_no_panic (E : Evm σ) (hE : EvmSane E) (st : State σ)
       | none => exact absurd hb hg
       | some b => cases b <;> simp
 
+theorem balanceFellBy_ne_none {b0 b1 : Option Nat} {amt : Int} (h0 : b0 ≠ none) (h1 : b1 ≠ none) :
+    balanceFellBy b0 b1 amt ≠ none := by
+  cases b0 with
+  | none => exact absurd rfl h0
+  | some x =>
+    cases b1 with
+    | none => exact absurd rfl h1
+    | some y => simp [balanceFellBy]
+
 theorem convertNativeERC20_no_panic (E : Evm σ) (hE : EvmSane E) (st : State σ) (p : Pair) (s rc : Addr) (d : Denom)
     (amt : Int) (site : String) : convertNativeERC20 E st p s rc d amt ≠ .panic site := by
   unfold convertNativeERC20
@@ -116,7 +128,7 @@ theorem convertNativeERC20_no_panic (E : Evm σ) (hE : EvmSane E) (st : State σ
   | none => simp
   | some bank1 =>
     simp only
-    cases hm : E.transfer (E.balanceOf st.evm p.contract rc).1 p.contract rc amt with
+    cases hm : E.transfer (E.balanceOf (E.balanceOf st.evm p.contract rc).1 p.contract (evmAddr st.modAddr)).1 p.contract rc amt with
     | none => simp
     | some t =>
       obtain ⟨e2, ret, ap⟩ := t
@@ -128,8 +140,8 @@ theorem convertNativeERC20_no_panic (E : Evm σ) (hE : EvmSane E) (st : State σ
         | false => simp
         | true =>
           simp only
-          have hs := hE.2 _ _ _ _ _ _ hm
-          have hg := balanceGrewBy_ne_none (amt := amt) hs.1 hs.2
+          have hs := hE.2 _ _ _ _ _ _ _ hm
+          have hg := balanceGrewBy_ne_none (amt := amt) hs.1 hs.2.2.1
           cases hb : balanceGrewBy (E.balanceOf st.evm p.contract rc).2 (E.balanceOf e2 p.contract rc).2 amt with
           | none => exact absurd hb hg
           | some b =>
@@ -137,9 +149,18 @@ theorem convertNativeERC20_no_panic (E : Evm σ) (hE : EvmSane E) (st : State σ
             | false => simp
             | true =>
               simp only
-              split
-              · simp
-              · split <;> simp
+              have hf := balanceFellBy_ne_none (amt := amt) hs.2.1 hs.2.2.2
+              cases hq : balanceFellBy (E.balanceOf (E.balanceOf st.evm p.contract rc).1 p.contract (evmAddr st.modAddr)).2
+                  (E.balanceOf (E.balanceOf e2 p.contract rc).1 p.contract (evmAddr st.modAddr)).2 amt with
+              | none => exact absurd hq hf
+              | some b =>
+                cases b with
+                | false => simp
+                | true =>
+                  simp only
+                  split
+                  · simp
+                  · split <;> simp
 
 /-- `ConvertCoin` never panics with a sane contract. -/
 theorem convertCoin_no_panic (E : Evm σ) (hE : EvmSane E) (st : State σ) (s rc : Addr) (d : Denom) (amt : Int) (site : String) :
@@ -229,7 +250,7 @@ def Untouched (sI s : State σ) : Prop := s.bal = sI.bal ∧ s.evm = sI.evm
 
 /-- One complete conversion on top of the wrapped application's state `sI`. -/
 def Converted (E : Evm σ) (v : View) (sI s : State σ) : Prop :=
-  ∃ (amt : Int) (id : Nat) (p : Pair) (b0 b1 : Nat) (e2 : σ),
+  ∃ (amt : Int) (id : Nat) (p : Pair) (b0 b1 : Nat) (e2 e3 : σ),
     v.amount = some amt ∧ 0 < amt ∧
     sI.enabled = true ∧ sI.denomMap v.denom = some id ∧ sI.pairs id = some p ∧ p.enabled = true ∧
     sI.blocked (evmAddr (v.receiver.getD [])) = false ∧
@@ -237,12 +258,17 @@ def Converted (E : Evm σ) (v : View) (sI s : State σ) : Prop :=
     (E.balanceOf sI.evm p.contract (evmAddr (v.receiver.getD []))).2 = some b0 ∧
     ((p.owner = .module ∧
         E.mint (E.balanceOf sI.evm p.contract (evmAddr (v.receiver.getD []))).1 p.contract (evmAddr (v.receiver.getD [])) amt = some e2 ∧
+        s.evm = e3 ∧
         s.bal = sendCoins sI.bal (v.receiver.getD []) sI.modAddr v.denom amt)
      ∨ (p.owner = .external ∧
-        E.transfer (E.balanceOf sI.evm p.contract (evmAddr (v.receiver.getD []))).1 p.contract (evmAddr (v.receiver.getD [])) amt
-          = some (e2, some true, false) ∧
+        -- the module's own token balance (its escrow of tokens) fell by exactly amt across the `transfer`
+        ∃ (m0 m1 : Nat),
+        (E.balanceOf (E.balanceOf sI.evm p.contract (evmAddr (v.receiver.getD []))).1 p.contract (evmAddr sI.modAddr)).2 = some m0 ∧
+        E.transfer (E.balanceOf (E.balanceOf sI.evm p.contract (evmAddr (v.receiver.getD []))).1 p.contract (evmAddr sI.modAddr)).1
+            p.contract (evmAddr (v.receiver.getD [])) amt = some (e2, some true, false) ∧
+        E.balanceOf e3 p.contract (evmAddr sI.modAddr) = (s.evm, some m1) ∧ (m1 : Int) = (m0 : Int) - amt ∧
         s.bal = addBal (sendCoins sI.bal (v.receiver.getD []) sI.modAddr v.denom amt) sI.modAddr v.denom (-amt))) ∧
-    E.balanceOf e2 p.contract (evmAddr (v.receiver.getD [])) = (s.evm, some b1) ∧
+    E.balanceOf e2 p.contract (evmAddr (v.receiver.getD [])) = (e3, some b1) ∧
     (b1 : Int) = (b0 : Int) + amt ∧
     s.denomMap = sI.denomMap ∧ s.pairs = sI.pairs ∧ s.enabled = sI.enabled
 
@@ -272,19 +298,33 @@ theorem balanceGrewBy_true {b0 b1 : Option Nat} {amt : Int} (h : balanceGrewBy b
     exact ⟨x, y, rfl, rfl, by simpa using h⟩
   · cases h
 
+theorem balanceFellBy_true {b0 b1 : Option Nat} {amt : Int} (h : balanceFellBy b0 b1 amt = some true) :
+    ∃ x y, b0 = some x ∧ b1 = some y ∧ (y : Int) = (x : Int) - amt := by
+  unfold balanceFellBy at h
+  split at h
+  · rename_i x y
+    injection h with h
+    exact ⟨x, y, rfl, rfl, by simpa using h⟩
+  · cases h
+
 /-- What a successful `ConvertCoin` did. -/
 theorem convertCoin_ok (E : Evm σ) (st st' : State σ) (s rc : Addr) (d : Denom) (amt : Int)
     (h : convertCoin E st s rc d amt = .ok st') :
     (st'.bal = st.bal ∧ st'.evm = st.evm) ∨
-    ∃ (id : Nat) (p : Pair) (b0 b1 : Nat) (e2 : σ),
+    ∃ (id : Nat) (p : Pair) (b0 b1 : Nat) (e2 e3 : σ),
       0 < amt ∧ st.enabled = true ∧ st.denomMap d = some id ∧ st.pairs id = some p ∧ p.enabled = true ∧
       st.blocked rc = false ∧ amt ≤ st.bal s d ∧
       (E.balanceOf st.evm p.contract rc).2 = some b0 ∧
       ((p.owner = .module ∧ E.mint (E.balanceOf st.evm p.contract rc).1 p.contract rc amt = some e2 ∧
+          st'.evm = e3 ∧
           st'.bal = sendCoins st.bal s st.modAddr d amt)
-       ∨ (p.owner = .external ∧ E.transfer (E.balanceOf st.evm p.contract rc).1 p.contract rc amt = some (e2, some true, false) ∧
+       ∨ (p.owner = .external ∧ ∃ (m0 m1 : Nat),
+          (E.balanceOf (E.balanceOf st.evm p.contract rc).1 p.contract (evmAddr st.modAddr)).2 = some m0 ∧
+          E.transfer (E.balanceOf (E.balanceOf st.evm p.contract rc).1 p.contract (evmAddr st.modAddr)).1 p.contract rc amt
+            = some (e2, some true, false) ∧
+          E.balanceOf e3 p.contract (evmAddr st.modAddr) = (st'.evm, some m1) ∧ (m1 : Int) = (m0 : Int) - amt ∧
           st'.bal = addBal (sendCoins st.bal s st.modAddr d amt) st.modAddr d (-amt))) ∧
-      E.balanceOf e2 p.contract rc = (st'.evm, some b1) ∧ (b1 : Int) = (b0 : Int) + amt ∧
+      E.balanceOf e2 p.contract rc = (e3, some b1) ∧ (b1 : Int) = (b0 : Int) + amt ∧
       st'.denomMap = st.denomMap ∧ st'.pairs = st.pairs ∧ st'.enabled = st.enabled := by
   unfold convertCoin at h
   split at h
@@ -316,8 +356,8 @@ theorem convertCoin_ok (E : Evm σ) (st st' : State σ) (s rc : Addr) (d : Denom
               obtain ⟨x, y, hx, hy, hxy⟩ := balanceGrewBy_true hg
               injection h with h
               subst h
-              refine ⟨id, p, x, y, e2, hpos, hen, hdm, hpr, hpe, hbl, hle, hx, Or.inl ⟨hown, hmint, hb⟩, ?_, hxy, rfl, rfl, rfl⟩
-              simp only
+              refine ⟨id, p, x, y, e2, (E.balanceOf e2 p.contract rc).1, hpos, hen, hdm, hpr, hpe, hbl, hle, hx,
+                Or.inl ⟨hown, hmint, rfl, hb⟩, ?_, hxy, rfl, rfl, rfl⟩
               rw [← hy]
       · -- externally owned pair
         rename_i hown
@@ -340,17 +380,23 @@ theorem convertCoin_ok (E : Evm σ) (st st' : State σ) (s rc : Addr) (d : Denom
                 obtain ⟨x, y, hx, hy, hxy⟩ := balanceGrewBy_true hg
                 split at h
                 · cases h
-                · split at h
+                · cases h
+                · rename_i hq
+                  obtain ⟨m0, m1, hm0, hm1, hm01⟩ := balanceFellBy_true hq
+                  split at h
                   · cases h
-                  · rename_i hap
-                    have hap' : ap = false := by simpa using hap
-                    subst hap'
-                    injection h with h
-                    subst h
-                    refine ⟨id, p, x, y, e2, hpos, hen, hdm, hpr, hpe, hbl, hle, hx, Or.inr ⟨hown, htr, ?_⟩, ?_, hxy, rfl, rfl, rfl⟩
-                    · simp only [hb]
-                    · simp only
-                      rw [← hy]
+                  · split at h
+                    · cases h
+                    · rename_i hap
+                      have hap' : ap = false := by simpa using hap
+                      subst hap'
+                      injection h with h
+                      subst h
+                      refine ⟨id, p, x, y, e2, (E.balanceOf e2 p.contract rc).1, hpos, hen, hdm, hpr, hpe, hbl, hle, hx,
+                        Or.inr ⟨hown, m0, m1, hm0, htr, ?_, hm01, ?_⟩, ?_, hxy, rfl, rfl, rfl⟩
+                      · rw [← hm1]
+                      · simp only [hb]
+                      · rw [← hy]
       · cases h
 
 /-- **conversion_atomic.** After `OnRecvPacket` (repaired or not) the state is either exactly the one left by the
@@ -379,9 +425,9 @@ theorem conversion_atomic (fixed : Bool) (E : Evm σ) (view : P → View) (inner
             · rename_i st' hc
               injection h with h
               subst h
-              rcases convertCoin_ok E _ _ _ _ _ _ hc with hu | ⟨id, p, b0, b1, e2, h1, h2, h3, h4, h5, h5b, h6, h7, h8, h9, h10, h11, h12, h13⟩
+              rcases convertCoin_ok E _ _ _ _ _ _ hc with hu | ⟨id, p, b0, b1, e2, e3, h1, h2, h3, h4, h5, h5b, h6, h7, h8, h9, h10, h11, h12, h13⟩
               · exact Or.inl hu
-              · exact Or.inr ⟨amt, id, p, b0, b1, e2, ha, h1, h2, h3, h4, h5, h5b, h6, h7, h8, h9, h10, h11, h12, h13⟩
+              · exact Or.inr ⟨amt, id, p, b0, b1, e2, e3, ha, h1, h2, h3, h4, h5, h5b, h6, h7, h8, h9, h10, h11, h12, h13⟩
             · injection h with h; subst h; exact Or.inl ⟨rfl, rfl⟩
             · cases h
 
@@ -393,9 +439,9 @@ theorem converted_balances (E : Evm σ) (v : View) (sI s : State σ) (h : Conver
       s.bal (v.receiver.getD []) v.denom = sI.bal (v.receiver.getD []) v.denom - amt ∧
       s.bal sI.modAddr v.denom = sI.bal sI.modAddr v.denom + amt ∧
       (∀ a d, ¬ (a = v.receiver.getD [] ∧ d = v.denom) → ¬ (a = sI.modAddr ∧ d = v.denom) → s.bal a d = sI.bal a d) := by
-  obtain ⟨amt, id, p, b0, b1, e2, ha, hpos, _, hdm, hpr, _, _, _, _, hflow, _, _, _, _, _⟩ := h
+  obtain ⟨amt, id, p, b0, b1, e2, e3, ha, hpos, _, hdm, hpr, _, _, _, _, hflow, _, _, _, _, _⟩ := h
   have hm := hown id p hdm hpr
-  rcases hflow with ⟨_, _, hb⟩ | ⟨hx, _, _⟩
+  rcases hflow with ⟨_, _, _, hb⟩ | ⟨hx, _⟩
   · refine ⟨amt, ha, hpos, ?_, ?_, ?_⟩
     · rw [hb]; simp [sendCoins, addBal, hne]; omega
     · rw [hb]; simp [sendCoins, addBal, Ne.symm hne]
@@ -411,7 +457,7 @@ theorem evmAddr_of_length20 (a : Addr) (h : a.length = 20) : evmAddr a = a := by
     address on the bank's blocked list, and `MintingEnabled` refuses blocked receivers. -/
 theorem converted_receiver_ne_module (E : Evm σ) (v : View) (sI s : State σ) (h : Converted E v sI s)
     (hlen : sI.modAddr.length = 20) (hblk : sI.blocked sI.modAddr = true) : v.receiver.getD [] ≠ sI.modAddr := by
-  obtain ⟨_, _, _, _, _, _, _, _, _, _, _, _, hb, _⟩ := h
+  obtain ⟨_, _, _, _, _, _, _, _, _, _, _, _, _, hb, _⟩ := h
   intro heq
   rw [heq, evmAddr_of_length20 _ hlen, hblk] at hb
   cases hb
@@ -490,7 +536,7 @@ def ledgerEvm : Evm (Addr → Nat) :=
 theorem ledgerEvm_sane : EvmSane ledgerEvm := by
   constructor
   · intro s c a amt s2 _; simp [ledgerEvm]
-  · intro s c a amt s2 ap h; simp [ledgerEvm] at h
+  · intro s c a m amt s2 ap h; simp [ledgerEvm] at h
 
 def wRecv : Addr := List.replicate 20 7
 def wMod : Addr := List.replicate 20 9
@@ -538,6 +584,29 @@ theorem repaired_witness :
       r.ack = some (.result [1]) ∧ r.ev = .success ∧
       r.st.bal wRecv wDenom = 0 ∧ r.st.bal wMod wDenom = 5 ∧ r.st.evm (evmAddr wRecv) = 5 := by
   refine ⟨_, rfl, ?_, ?_, ?_, ?_, ?_⟩ <;> decide
+
+/-- An honest ledger for an EXTERNALLY owned pair: `transfer` debits the module account `wMod`, credits the receiver. -/
+def ledgerEvmX : Evm (Addr → Nat) :=
+  { isContract := fun _ _ => true
+    balanceOf := fun s _ a => (s, some (s a))
+    mint := fun _ _ _ _ => none
+    transfer := fun s _ a amt =>
+      if s wMod < amt.toNat then none
+      else some (fun x => if x = a then (if a = wMod then s x else s x + amt.toNat)
+                          else if x = wMod then s x - amt.toNat else s x, some true, false) }
+
+def wStateX : State (Addr → Nat) :=
+  { wState with
+    pairs := fun i => if i = 0 then some { contract := 0, enabled := true, owner := .external, denoms := [wDenom] } else none
+    evm := fun a => if a = wMod then 100 else 0 }
+
+/-- The externally-owned flow (with the module-escrow check of 320c042) is inhabited too: 5 vouchers received,
+    escrowed and burned, 5 tokens moved from the module's token balance (100 → 95) to the receiver. -/
+theorem external_witness :
+    ∃ r, onRecv true ledgerEvmX wView wInner wStateX () = .ok r ∧
+      r.ack = some (.result [1]) ∧ r.ev = .success ∧
+      r.st.bal wRecv wDenom = 0 ∧ r.st.bal wMod wDenom = 0 ∧ r.st.evm (evmAddr wRecv) = 5 ∧ r.st.evm wMod = 95 := by
+  refine ⟨_, rfl, ?_, ?_, ?_, ?_, ?_, ?_⟩ <;> decide
 
 end Witness
 
